@@ -226,3 +226,19 @@ PROPS["C17"] = dict(
     min_labels=dict(quick=dict(deviation_reached=60000, SKIP=20000, POP=20000, STOP=10000, ERROR=10000, INVALID=10000)),
     assumptions=["member order of the built tree is insertion order (C06)"],
 )
+
+PROPS["C09"] = dict(
+    harness="C09_equal_copy.cpp", level="exploration",
+    technique="property testing of json_object_equal against a model equality on plain values over independent / single-deep-mutation / member-permutation / chained pairs and triples (reflexivity, symmetry, transitivity); metamorphic deep-copy checks (equal, text under flag sets, address disjointness, mutate/destroy independence) under ASan",
+    level_text="pairs and triples of trees related by a known change (kind change with equal numeric value, int64 vs uint64 node, one ulp, +-0, NaN, "
+               "string length/byte/embedded NUL, element swap, member add/remove/rename, member permutation at every level) are compared with a model "
+               "equality; deep copies of built, parsed (retained number text) and custom-serialiser trees must be equal, serialise identically under "
+               "8 (every 10th case: all 64) flag sets, share no node, and stay unchanged when the other side is mutated in place or destroyed",
+    level_note="equality of denoted values is the header's definition (kind-strict, IEEE == on doubles); integer signedness of a copy is observable only through serialisation and is covered that way",
+    rule="equal mode: (a,b,c) with their relation; non-trivial = the single mutation sits at depth >= 2, or the pair differs only in member order / integer signedness, or is a two-mutation chain; copy mode: every case counts; distinct by hash of the trees",
+    quick=[dict(mode="equal", cases=100000, workers=8), dict(mode="copy", cases=40000, workers=8)],
+    thorough=[dict(mode="equal", cases=8000000, workers=16), dict(mode="copy", cases=3000000, workers=16),
+              dict(mode="equal", fuzz=True, secs=200, jobs=8, max_len=1024), dict(mode="copy", fuzz=True, secs=200, jobs=8, max_len=1024)],
+    min_labels=dict(quick=dict(mutation=30000, mutation_depth_ge2=3000, mixed_string_storage=40000, permutation=15000, chain=10000, src_parsed=8000, src_custom_serializer=5000)),
+    assumptions=["member names without NUL (API limit)"],
+)
